@@ -24,7 +24,8 @@ def variant(rng, s):
 class C05(ProgramProperty):
     id = "C05"
     theorems = ["C05_step", "C05_reject", "C05_shape", "C05_resolves", "C05_addPrefix", "C05_histories", "C05_fresh",
-                "C05_histories_fresh", "C05_lookup_structures", "C05_reject_iff"]
+                "C05_histories_fresh", "C05_lookup_structures", "C05_reject_iff", "C05_afterAdd", "C05_afterAdd_reject",
+                "C05_records_refine"]
     lean_modules = ["CuriesVerif.Properties.C05"]
     rule = ("one case = a strict start converter and a history of 1-8 (thorough: up to 20) add_record / add_prefix "
             "operations with random case_sensitive / merge flags; each new record is fresh or overlaps existing "
